@@ -15,6 +15,7 @@
 package ggql
 
 import (
+	"math"
 	"strconv"
 )
 
@@ -37,6 +38,30 @@ func newIntScalar() Type {
 // otherwise an error is returned.
 func (*intScalar) CoerceIn(v interface{}) (interface{}, error) {
 	var err error
+	// An Int is 32 bits. Wider values that do not fit are an error and not
+	// silently truncated.
+	switch tv := v.(type) {
+	case int:
+		if tv < math.MinInt32 || math.MaxInt32 < tv {
+			return nil, newCoerceErr(v, "Int")
+		}
+	case int64:
+		if tv < math.MinInt32 || math.MaxInt32 < tv {
+			return nil, newCoerceErr(v, "Int")
+		}
+	case uint:
+		if math.MaxInt32 < tv {
+			return nil, newCoerceErr(v, "Int")
+		}
+	case uint32:
+		if math.MaxInt32 < tv {
+			return nil, newCoerceErr(v, "Int")
+		}
+	case uint64:
+		if math.MaxInt32 < tv {
+			return nil, newCoerceErr(v, "Int")
+		}
+	}
 	switch tv := v.(type) {
 	case nil:
 		// remains nil
